@@ -252,7 +252,7 @@ type c16Cell struct {
 	UTC     *[]bool    `json:"utc,omitempty"`    // SetUTCMode(args...), nil = never called
 	Layout  *[]string  `json:"layout,omitempty"` // SetTimeFormat(args...), nil = never called
 	Shape   string     `json:"shape"`            // ShJSON | ShLogfmt | ShColor
-	Form    string     `json:"form"`             // set | opt | with
+	Form    string     `json:"form"`             // set | opt | with | child
 	Level   int        `json:"level"`
 	Record  string     `json:"record,omitempty"`
 	Text    string     `json:"text,omitempty"`
@@ -286,6 +286,18 @@ func c16NewLogger(c *c16Cell, n int) *slog.Entry {
 				e.SetUTCMode(n%4 == 0)
 			}
 		}
+		if c.UTC != nil {
+			e.SetUTCMode(*c.UTC...)
+		}
+		if c.Layout != nil {
+			e.SetTimeFormat(*c.Layout...)
+		}
+	case "child":
+		// the logger is the child of a parent that HAS chosen a UTC mode and a layout of its own: a child inherits neither,
+		// it follows the flags until it is told itself
+		e.SetUTCMode(n%2 == 0)
+		e.SetTimeFormat(time.Kitchen)
+		e = slog.VerifEntryOf(e.New(fmt.Sprintf("kid-%d", n)))
 		if c.UTC != nil {
 			e.SetUTCMode(*c.UTC...)
 		}
@@ -763,7 +775,7 @@ func runC16(r *Run) {
 	coqEvery := r.N(1, 11) // thorough: every 11th grid cell becomes a Coq case, the rest is oracle-only
 	x := &c16Ctx{snap: snap, layName: map[string]string{}}
 	x.toCoq = func() bool { return cellNo%coqEvery == 0 }
-	forms := []string{"set", "opt", "with"}
+	forms := []string{"set", "opt", "with", "child"}
 	grid := func(inst func() c16Instant) {
 		for dt := 0; dt < 8; dt++ {
 			for _, local := range []bool{false, true} {
@@ -771,7 +783,7 @@ func runC16(r *Run) {
 					for _, l := range c16Layouts {
 						for _, sh := range c16Shapes {
 							c := c16Cell{Inst: inst(), Base: c16Bases[r.R.Intn(len(c16Bases))], DT: dt, Local: local, UTC: u, Shape: sh,
-								Form: forms[r.R.Intn(3)], Level: int(slog.WarnLevel)}
+								Form: forms[r.R.Intn(4)], Level: int(slog.WarnLevel)}
 							if l != "" {
 								c.Layout = &[]string{l}
 							}
@@ -821,7 +833,7 @@ func runC16(r *Run) {
 			}
 		}
 		c := c16Cell{Inst: in, Base: c16Bases[r.R.Intn(len(c16Bases))], DT: r.R.Intn(8), Local: r.R.Bool(), UTC: c16UTCStates[r.R.Intn(3)],
-			Layout: &[]string{lay}, Shape: c16Shapes[r.R.Intn(3)], Form: forms[r.R.Intn(3)], Level: int(slog.WarnLevel)}
+			Layout: &[]string{lay}, Shape: c16Shapes[r.R.Intn(3)], Form: forms[r.R.Intn(4)], Level: int(slog.WarnLevel)}
 		cellNo = 0
 		c16One(r, x, c, "element-sweep")
 	}
@@ -835,7 +847,7 @@ func runC16(r *Run) {
 				k0++
 				in := c16Instant{Sec: 1700000000 + int64(k0)*86399, Nsec: 123456789, Zone: z}
 				c := c16Cell{Inst: in, Base: c16Bases[k0%len(c16Bases)], DT: k0 % 8, Local: k0%2 == 0, UTC: c16UTCStates[ui],
-					Layout: &[]string{lay}, Shape: c16Shapes[k0%3], Form: forms[k0/3%3], Level: int(slog.WarnLevel)}
+					Layout: &[]string{lay}, Shape: c16Shapes[k0%3], Form: forms[k0/3%4], Level: int(slog.WarnLevel)}
 				if lay == "" {
 					c.Layout = nil
 				}
@@ -852,7 +864,7 @@ func runC16(r *Run) {
 		{"2006-01-02 15:04:05.000", "15:04:05"}}
 	for i := r.N(150, 3000); i > 0; i-- {
 		c := c16Cell{Inst: insts[r.R.Intn(len(insts))], Base: c16Bases[r.R.Intn(len(c16Bases))], DT: r.R.Intn(8), Local: r.R.Bool(),
-			Shape: c16Shapes[r.R.Intn(3)], Form: forms[r.R.Intn(3)], Level: int(slog.WarnLevel)}
+			Shape: c16Shapes[r.R.Intn(3)], Form: forms[r.R.Intn(4)], Level: int(slog.WarnLevel)}
 		switch r.R.Intn(3) {
 		case 0:
 			c.UTC = utcForms[r.R.Intn(len(utcForms))]
